@@ -1,0 +1,15 @@
+//go:build verif
+// +build verif
+
+package websocket
+
+// VerifHook, when set, is called at the write-lock and transport-write points of a
+// connection. It exists only in builds with the "verif" tag and is used by external
+// runtime monitors to record events and to perturb the schedule.
+var VerifHook func(point string, c *Conn)
+
+func verifPoint(point string, c *Conn) {
+	if h := VerifHook; h != nil {
+		h(point, c)
+	}
+}
